@@ -30,11 +30,13 @@ import (
 	"math/rand"
 	"os"
 	"os/exec"
+	"os/signal"
 	"path/filepath"
 	"runtime"
 	"sort"
 	"strings"
 	"sync"
+	"syscall"
 
 	"github.com/golang/snappy"
 	"github.com/hydraide/hydraide/app/core/filesystem"
@@ -53,9 +55,16 @@ func init() {
 	Register("C23worker", Domain{Gen: func(*rand.Rand, string, *bufio.Writer) {}, Run: c23Worker})
 }
 
+// the V1 engine prints debug lines with fmt.Println, and /verif/check merges the generator's stderr into the
+// op stream: both go to /dev/null (the op / reply writer keeps the original stdout)
 func c23Quiet() {
 	slog.SetDefault(slog.New(slog.NewTextHandler(io.Discard, nil)))
-	os.Stdout = os.Stderr
+	if null, err := os.OpenFile(os.DevNull, os.O_WRONLY, 0); err == nil {
+		if os.Getenv("C23_DEBUG") == "" {
+			os.Stderr = null
+		}
+		os.Stdout = null
+	}
 }
 
 // ---- building a folder with the real V1 engine ---------------------------------------
@@ -358,7 +367,10 @@ func c23Gen(rng *rand.Rand, tier string, w *bufio.Writer) {
 		}
 		// injected failures (each on the combinations where the step exists)
 		nChunks := len(fo)
-		faults := []string{"load", "write:1", "write:2", "write:3", "verify"}
+		faults := []string{"write:1", "write:2", "write:3", "verify"}
+		if nChunks > 1 { // at least one chunk file besides the meta file
+			faults = append(faults, "load")
+		}
 		for k := 0; k < nChunks && k < 3; k++ {
 			faults = append(faults, fmt.Sprintf("unlink:%d", k))
 		}
@@ -452,41 +464,63 @@ func c23Worker(in *bufio.Scanner, w *bufio.Writer) {
 	c23Quiet()
 	for in.Scan() {
 		f := strings.Fields(in.Text())
-		if len(f) != 4 {
+		if len(f) != 5 {
 			continue
+		}
+		var fsize uint64
+		fmt.Sscanf(f[4], "fsize=%d", &fsize)
+		if fsize > 0 {
+			// a genuine short write followed by EFBIG at a chosen byte offset of the .hyd file
+			signal.Ignore(syscall.SIGXFSZ)
+			var lim syscall.Rlimit
+			if err := syscall.Getrlimit(syscall.RLIMIT_FSIZE, &lim); err == nil {
+				lim.Cur = fsize
+				_ = syscall.Setrlimit(syscall.RLIMIT_FSIZE, &lim)
+			}
 		}
 		fmt.Fprintln(w, c23Migrate(f[0], f[1] == "1", f[2] == "1", f[3] == "1"))
 		w.Flush()
 	}
 }
 
-func c23Strace(dataPath, swamp string, v, d, r string, fault string, chunks []string) string {
+// c23Child runs the migration in a worker process, under strace when a syscall is to fail.
+// Every injection is `when=1` on one path: strace counts per thread, and a Go program may move between threads.
+func c23Child(dataPath, swamp string, v, d, r string, fault string, files []string, chunks []string, name string) string {
 	exe, _ := os.Executable()
 	hyd := swamp + ".hyd"
-	args := []string{"-f", "--seccomp-bpf", "-o", "/dev/null"}
+	var st []string
+	fsize := 0
 	switch {
 	case fault == "load":
-		args = append(args, "-e", "trace=openat", "-e", "inject=openat:error=EIO:when=1", "-P", filepath.Join(swamp, chunks[0]))
-	case strings.HasPrefix(fault, "write:"):
-		// write 1 = file header, 2 = swamp name (both inside NewFileWriterWithName), 3… = blocks / header rewrite
-		var k int
-		fmt.Sscanf(fault, "write:%d", &k)
-		args = append(args, "-e", "trace=write,pwrite64", "-e", fmt.Sprintf("inject=write,pwrite64:error=EIO:when=%d", k), "-P", hyd)
-	case fault == "verify":
-		// the writer never reads the .hyd file: the first read of that path is the verifying reader
-		args = append(args, "-e", "trace=read,pread64", "-e", "inject=read,pread64:error=EIO:when=1", "-P", hyd)
+		st = []string{"-e", "trace=openat", "-e", "inject=openat:error=EIO:when=1", "-P", filepath.Join(swamp, chunks[0])}
+	case fault == "write:1": // the file header, inside NewFileWriterWithName
+		st = []string{"-e", "trace=write,pwrite64", "-e", "inject=write,pwrite64:error=EIO:when=1", "-P", hyd}
+	case fault == "write:2": // the swamp name after the header, still inside NewFileWriterWithName
+		fsize = 64 + len(name)/2
+	case fault == "write:3": // the first block
+		fsize = 64 + len(name) + 8
+	case fault == "verify": // the writer never reads the .hyd file: the first read of that path is the verifying reader
+		st = []string{"-e", "trace=read,pread64", "-e", "inject=read,pread64:error=EIO:when=1", "-P", hyd}
 	case strings.HasPrefix(fault, "unlink:"):
 		var k int
 		fmt.Sscanf(fault, "unlink:%d", &k)
-		args = append(args, "-e", "trace=unlinkat,unlink", "-e", fmt.Sprintf("inject=unlinkat,unlink:error=EIO:when=%d", k+1))
+		if k >= len(files) {
+			k = len(files) - 1
+		}
+		st = []string{"-e", "trace=unlinkat,unlink", "-e", "inject=unlinkat,unlink:error=EIO:when=1", "-P", filepath.Join(swamp, files[k])}
 	}
-	args = append(args, exe, "run", "C23worker")
-	cmd := exec.Command("strace", args...)
-	cmd.Stdin = strings.NewReader(fmt.Sprintf("%s %s %s %s\n", dataPath, v, d, r))
+	var cmd *exec.Cmd
+	if st != nil {
+		args := append([]string{"-f", "--seccomp-bpf", "-o", "/dev/null"}, st...)
+		cmd = exec.Command("strace", append(args, exe, "run", "C23worker")...)
+	} else {
+		cmd = exec.Command(exe, "run", "C23worker")
+	}
+	cmd.Stdin = strings.NewReader(fmt.Sprintf("%s %s %s %s fsize=%d\n", dataPath, v, d, r, fsize))
 	var out, errb bytes.Buffer
 	cmd.Stdout, cmd.Stderr = &out, &errb
 	if err := cmd.Run(); err != nil && out.Len() == 0 {
-		return "strace-error:" + strings.ReplaceAll(strings.TrimSpace(errb.String()), " ", "_")
+		return "child-error:" + strings.ReplaceAll(strings.TrimSpace(errb.String()), " ", "_")
 	}
 	return strings.TrimSpace(out.String())
 }
@@ -573,7 +607,11 @@ func c23One(scratch string, n int, line string) string {
 			fault = "none"
 			res = c23Migrate(filepath.Join(root, "data"), v == "1", d == "1", r == "1")
 		} else {
-			res = c23Strace(filepath.Join(root, "data"), swamp, v, d, r, fault, chunks)
+			var files []string
+			for _, x := range fo {
+				files = append(files, x.name)
+			}
+			res = c23Child(filepath.Join(root, "data"), swamp, v, d, r, fault, files, chunks, wantName)
 		}
 	}
 	// V1 files afterwards
